@@ -778,7 +778,7 @@ func c17Run(c *fw.Ctx) {
 			fillScenario{Name: "fill/two-groups", Threads: [][]fillOp{{up, fillOp{"update", "h"}, get}, {fillOp{"update", "h"}, fillOp{"get", "h"}}, {lp}}, Ticks: 1, Bound: 2},
 		)
 		locals = append(locals,
-			localScenario{Name: "local/subsets", Threads: [][]localQ{{q("u1", "a"), q("u1", "a", "b")}, {q("u1", "b"), q("u1", "a")}, {edit("b"), edit("a")}}, Expiry: 2, Bound: 2},
+			localScenario{Name: "local/subsets", Threads: [][]localQ{{q("u1", "a"), q("u1", "a", "b")}, {q("u1", "b")}, {edit("b")}}, Expiry: 1, Bound: 2},
 		)
 		googles = append(googles,
 			googleScenario{Name: "google/all-cached-refresh", Prefill: []string{"a", "b"}, Threads: [][]localQ{{q("u1", "a", "b"), q("u1", "b")}, {edit("a"), q("u1", "a")}, {q("u2", "a", "b")}}, Ticks: 2, Bound: 2},
